@@ -46,7 +46,7 @@ def gen_case(rng, nthreads=None):
         prog.append(['read'])
     threads.append(prog)
   sched = [rng.randrange(nt) for _ in range(rng.randint(10, 120))]
-  return {'dom': 'sched', 'threads': threads, 'schedule': sched}
+  return {'dom': 'sched', 'threads': threads, 'schedule': sched, '_finalize': rng.random() < 0.3}
 
 
 def gen_history(rng):
@@ -56,7 +56,8 @@ def gen_history(rng):
     if rng.random() < 0.3:
       ops.append({'op': 'clear', 'constants': rng.random() < 0.5})
     else:
-      ops.append({'op': 'singleton', 'key': rng.choice(['s1', 's2', 'a/s1']), 'ctor': rng.random() < 0.85})
+      ops.append({'op': 'singleton', 'key': rng.choice(['s1', 's2', 'a/s1', 'b/s1', 'a/b/s2']), 'ctor': rng.random() < 0.85,
+                  '_via_cfg': rng.random() < 0.5})
   return {'dom': 'gin', 'ops': ops}
 
 
@@ -86,10 +87,12 @@ def gen_cases(rng, tier, boost=1):
            [[['call', 'f', 'a', 2], ['call', 'f', 'a', None]], [['read'], ['read']]],
            [[['single', 'k1'], ['read']], [['single', 'k1'], ['single', 'kd']]],
            [[['read']], [['call', 'g', 'a/b', None], ['call', 'f', 'a/b', None]]]]
-  for threads in progs:
+  for k, threads in enumerate(progs):
     for a in range(0, 40 if tier == 'quick' else 120, 1):
       yield {'dom': 'sched', 'threads': threads, 'schedule': [0] * a + [1] * 80 + [0] * 80}
       yield {'dom': 'sched', 'threads': threads, 'schedule': [1] * a + [0] * 80 + [1] * 80}
+      if k < 2:   # ... and the same on a finalized configuration
+        yield {'dom': 'sched', 'threads': threads, 'schedule': [0] * a + [1] * 80 + [0] * 80, '_finalize': True}
 
 
 # ------------------------------------------------------------------ instrumented shared objects
@@ -259,7 +262,7 @@ class ThreadingShim:
     return getattr(threading, name)
 
 
-def build(gin, sched):
+def build(gin, sched, finalize=False):
   cfg = gin.config
   g = {'__name__': 'pm'}
   exec('def f(x=0, y=5):\n  return (x, y)\ndef g(z=1):\n  return z\n', g)  # pylint: disable=exec-used
@@ -267,6 +270,8 @@ def build(gin, sched):
   gin.bind_parameter('pm.f.x', 1)
   gin.bind_parameter('a/pm.f.y', 7)
   gin.bind_parameter('a/b/pm.g.z', [1, 2, 3])
+  if finalize:
+    gin.finalize()     # a locked configuration: calls keep recording into the operative config, reads keep reading it
   if sched is not None:
     SDict.sched = sched
     # the shared tables: the two the property names, and any other private module-level dict that is empty at this
@@ -326,7 +331,7 @@ def run_impl(case):
   gin = core.fresh_gin()
   n = len(case['threads'])
   sched = Sched(n, case['schedule'])
-  fns = build(gin, sched)
+  fns = build(gin, sched, case.get('_finalize', False))
   counts, logs, errors = {}, [[] for _ in range(n)], [None] * n
 
   def worker(tid):
@@ -364,7 +369,7 @@ def run_impl(case):
           reads_parse = f'{type(ex).__name__}: {ex}'[:200]
   # sequential reference: the same actions one thread after the other, in a fresh interpreter
   g3 = core.fresh_gin()
-  fns3 = build(g3, None)
+  fns3 = build(g3, None, case.get('_finalize', False))
   c3 = {}
   seq_box = {}
 
